@@ -34,13 +34,8 @@ def gen_decl(rnd, k, opts=None):
     structnode = rnd.choice([None, None, None] + list(range(1, n))) if n > 2 and opts.get("structs", True) else None
     if n > 1 and opts.get("structs", True) and not opts.get("ret_is_arg") and rnd.random() < 0.06:
         structnode = 0          # the requested type is supplied only by a field of an expanded struct
-    if structnode == 0:
-        # the requested field type is a struct value: goroutines together with an error result would only reproduce
-        # known finding KF-C04-2 (`return nil, err`), so such a declaration keeps one of the two
-        if rnd.random() < 0.5:
-            asyncs = {i: False for i in range(n)}
-        else:
-            fall = {i: False for i in range(n)}
+    # (a requested field type is a struct value: with goroutines and an error result the injector has to return the zero
+    # value of a type that has no nil - the repaired KF-C04-2)
     nf = rnd.choice([1, 2, 3]) if structnode is not None else 0
     nargs = rnd.choice([0, 0, 1, 2, 3])
     # multi-value: node i also returns X_i, consumed by an earlier node (or by nobody)
